@@ -441,3 +441,69 @@ Example C17_ex_terpene :
   terpene_filter_o [(1, 30, 0); (1, 50, 0)] [(0, C13.Model.mkHit 1 9 60 1 20); (0, w_t1)]
   = Ok [(0, [w_t1; C13.Model.mkHit 1 9 60 1 20])].
 Proof. vm_compute. reflexivity. Qed.
+
+(* ---- rule-based detection on ANY record, circular ones with several origin-crossing genes included (cluster_prediction.py:
+   apply_cluster_rules, find_protoclusters, apply_extenders, remove_redundant_protoclusters, merge_over_origin): the one
+   place that iterates a Python set is find_protoclusters' `sorted(record.get_cds_by_name(cds) for cds in cds_names)` over
+   the Set[str] of the names of the genes satisfying a rule.  Model.v module DO repeats C03's transcription with that
+   enumeration as an explicit argument `en rule_index genes_in_record_order`.  At the identity enumerator it IS
+   C03.Model.pipeline (no guard) - the model the correspondence runs of C03 and of this check (run function 16, at the order
+   each child process observed) compare with the code *)
+Theorem C17_detection_model_is_C03 : forall N circular gs hs rules cached,
+  DO.pipeline_o DO.en_id N circular gs hs rules cached = C03.Model.pipeline N circular gs hs rules cached.
+Proof. exact DetP.detection_o_id_proof. Qed.
+Print Assumptions C17_detection_model_is_C03.
+
+(* the cores of one rule (origin-crossing genes first, sweep against the newest core, closing test on the first and the last
+   core) are the same for every enumeration of the set of its genes, provided Feature.__lt__ separates any two of them that
+   differ in location *)
+Theorem C17_detection_cores_perm : forall N circular r o o',
+  Permutation o o' -> DetP.key_separates o -> DO.rule_cores_o N circular r o = DO.rule_cores_o N circular r o'.
+Proof. exact DetP.rule_cores_perm. Qed.
+Print Assumptions C17_detection_cores_perm.
+
+(* the WHOLE detection (all rules, extenders, superiors, merge over the origin; error outcome included): the same
+   protoclusters for all enumerations of all sets, under the guard "within each rule, two anchoring genes that
+   Feature.__lt__ does not separate have the same location" *)
+Theorem C17_detection_perm : forall en en' N circular gs hs rules cached,
+  DetP.enumerates en -> DetP.enumerates en' ->
+  (forall a, C03.Model.apply_cluster_rules N circular gs hs rules cached = Ok a -> DetP.anchors_separated gs a) ->
+  DO.pipeline_o en N circular gs hs rules cached = DO.pipeline_o en' N circular gs hs rules cached.
+Proof. exact DetP.detection_perm_proof. Qed.
+Print Assumptions C17_detection_perm.
+
+(* ... in particular under the decidable record-wide guard *)
+Theorem C17_detection_perm_record : forall en en' N circular gs hs rules cached,
+  DetP.enumerates en -> DetP.enumerates en' -> DO.no_key_ties (map snd gs) = true ->
+  DO.pipeline_o en N circular gs hs rules cached = DO.pipeline_o en' N circular gs hs rules cached.
+Proof. exact DetP.detection_perm_record_proof. Qed.
+Print Assumptions C17_detection_perm_record.
+
+(* the guard is needed - finding C17-K11 crossing_anchor_key_tie_set_order: two origin-crossing genes with the same start and
+   length but other exons, a gene within the cutoff of one of them only, a superior rule: two enumerations of the same set
+   of gene names give different protoclusters (core 99001..3000 or 99001..3800 over the origin) *)
+Theorem C17_detection_key_tie_refuted :
+  exists N gs hs rules en en', DetP.enumerates en /\ DetP.enumerates en' /\
+    DO.pipeline_o en N true gs hs rules true <> DO.pipeline_o en' N true gs hs rules true.
+Proof. exact DetP.detection_key_tie_refuted_proof. Qed.
+Print Assumptions C17_detection_key_tie_refuted.
+
+(* the first of the two sorted() calls is needed (seeded defect of round 4: without it the origin-crossing genes become the
+   first cores in set order): a short origin-crossing gene nested in a long one, no two genes tied on the key; without the
+   first sort two enumerations give different protoclusters, the code (with it) gives one result *)
+Theorem C17_detection_presort_needed_refuted :
+  exists N gs hs rules en en', DetP.enumerates en /\ DetP.enumerates en' /\ DO.no_key_ties (map snd gs) = true /\
+    DO.pipeline_gen false en N true gs hs rules true <> DO.pipeline_gen false en' N true gs hs rules true /\
+    DO.pipeline_o en N true gs hs rules true = DO.pipeline_o en' N true gs hs rules true.
+Proof. exact DetP.detection_presort_needed_refuted_proof. Qed.
+Print Assumptions C17_detection_presort_needed_refuted.
+
+(* non-vacuity: the nested origin-crossing genes meet the guard; reversed enumeration: three protoclusters, the inferior one
+   over the origin keeps the core of the long gene *)
+Example C17_ex_detection :
+  DO.no_key_ties (map snd DetP.w_nested_genes) = true /\ DetP.enumerates DO.en_rev /\
+  DO.pipeline_o DO.en_rev 100000 true DetP.w_nested_genes DetP.w_hits DetP.w_nested_rules true
+  = Ok [(1, [mkPart 99001 100000 1; mkPart 0 3000 1], [mkPart 98001 100000 1; mkPart 0 4000 1]);
+        (1, [mkPart 50000 50600 1], [mkPart 49000 51600 1]);
+        (0, [mkPart 4000 4600 1], [mkPart 3000 5600 1])].
+Proof. split; [vm_compute; reflexivity|]. split; [exact DetP.en_rev_enumerates|vm_compute; reflexivity]. Qed.
